@@ -189,6 +189,10 @@ def gen_plan(rng, max_channels=4, rekey=False):
 
     for ch in plan['channels']:
         ch['mixed'] = bool(mixed and ch['text'])
+        # with errors='replace' a stream may end inside a character: the
+        # reader is then owed a replacement character for the torso
+        ch['cut_at_eof'] = bool(ch['mixed'] and plan['errors'] == 'replace'
+                                and rng.chance(50))
 
     return clamp_plan(plan)
 
@@ -252,6 +256,10 @@ def valid_plan(plan, max_pkts=400):
 
             if bool(ch.get('mixed')) != bool(plan.get('mixed') and
                                              ch['text']):
+                return False
+
+            if ch.get('cut_at_eof') and not (
+                    ch.get('mixed') and plan.get('errors') == 'replace'):
                 return False
 
             for ops in (ch['c2s'], ch['s2c']):
@@ -567,7 +575,7 @@ class ChanRun:
                     ep.sent[dt] -= n
                     break
             elif op[0] == 'eof':
-                if ep.mixed_bytes:
+                if ep.mixed_bytes and not ep.ch.get('cut_at_eof'):
                     # finish a character that was cut before signalling EOF
                     for dt in (0, 1):
                         tag = '%s%d.%d' % (tagdir, i, dt)
@@ -762,9 +770,17 @@ class ChanRun:
                             want = want.encode('utf-8')
                         else:
                             # n bytes written (possibly ending inside a
-                            # character), text received
+                            # character), text received: a torso at the
+                            # very end is withheld while the stream is open
+                            # and replaced once EOF says nothing will follow
                             want = mixed_stream(tag, n)[:n].decode(
-                                'utf-8', 'ignore')
+                                'utf-8', 'replace' if ch.get('cut_at_eof')
+                                and wep.sent_eof and rep.eof else 'ignore')
+
+                            if ch.get('cut_at_eof') and wep.sent_eof and \
+                                    want.endswith('\ufffd'):
+                                self.sim.probes['stream_cut_in_character'] \
+                                    += 1
 
                     got = rep.joined(dt)
 
